@@ -68,9 +68,9 @@ CHECKS = {
                   'expanded forms (belt key schedule, HMAC ipad/opad, hashed long keys), module-specific derived secrets and -- on failing unwraps of authentic tokens -- the content the token protects, on the success exit, on authentication-failure exits (one representative of every (function, altered field) class at least) and on every '
                   'allocation-fault exit (fail exactly the i-th allocation, for all i); the success exit of overlap-tolerant functions also under the buffer placements of C11.',
              note='trusted: link-time --wrap of free/realloc; needle derivation from the reference models; constant keys skipped (indistinguishable from wiped memory)', ref='4/C15'),
- 'C09': dict(cat='fault_enumeration', tech='exhaustive fault-point enumeration (fail exactly the i-th allocation for every i) plus exhaustive argument-boundary sweeps, a NULL-pointer sweep over every pointer argument, and single-bit authentication corruptions on the real code under ASan',
+ 'C09': dict(cat='fault_enumeration', tech='exhaustive fault-point enumeration (fail exactly the i-th allocation for every i; fail every allocation from the i-th on for every i) plus exhaustive argument-boundary sweeps, a NULL-pointer sweep over every pointer argument, and single-bit authentication corruptions on the real code under ASan',
              text='For every high-level call of the corpora the number N of allocation points is measured and the call is re-run N times with exactly the i-th allocation failing (malloc and realloc, realloc always moving): '
-                  'it must return an error, leave nothing allocated and not crash; each length/scalar argument is swept across and beyond its documented domain and must give the documented error class with all writes '
+                  'it must return an error, leave nothing allocated and not crash; the same with memory staying exhausted from the i-th point on; each length/scalar argument is swept across and beyond its documented domain and must give the documented error class with all writes '
                   'inside exact-size buffers; NULL-pointer sweep: each pointer argument of 133 err_t functions in turn passed as NULL (77 at catalogue level, 56 more at the call inside protocol / token composites through an '
                   'interceptor), skipped exactly where the header text allows a null pointer: an error of a documented class, never a crash or assertion; every single-bit corruption of tag/header/ciphertext and every '
                   'authentic-token-with-other-header case makes unwrap fail without releasing any 8-octet window of the plaintext.',
